@@ -98,7 +98,9 @@ HookBusyLocked(o, e) ==
            lo == Min(b.wait, MaxWait)
            o1 == RFlagIf(o, w < lo \/ w > MaxWait, "C13.BusyWait")
            o2 == RFlagIf(o1, b.ctrl # 0 /\ w # lo, "C13.BusyWait")
-       IN [o2 EXCEPT !.busyQ = Tail(@), !.until = e.t + w]
+       \* a back-off window once announced stays in force: a later (shorter) one never cuts it short. In the code the next
+       \* busy handler gets the lock only after the previous window has ended, so its window always ends later anyway.
+       IN [o2 EXCEPT !.busyQ = Tail(@), !.until = IF e.t + w > @ THEN e.t + w ELSE @]
 
 HookLostLocked(o, e) ==
   IF Len(o.lostQ) = 0 THEN RFlag(o, "C14.LostLockSpurious")
@@ -113,7 +115,10 @@ RRecv(o, e) ==
   LET hit == {i \in 1..Len(o.acc) : o.acc[i].pid = e.pid}
       inAcc == hit # {}
       i == IF inAcc THEN CHOOSE i \in hit : TRUE ELSE 0
-      o1 == RFlagIf(o, ~inAcc, IF e.pid \in o.accEver THEN "C14.DeliveredOnce" ELSE "C14.DeliveredNotReceived")
+      o0 == RFlagIf(o, ~inAcc, IF e.pid \in o.accEver THEN "C14.DeliveredOnce" ELSE "C14.DeliveredNotReceived")
+      \* C17: the sequence handed to the application is the sequence accepted - a telegram handed over a second time (or,
+      \* at the end of a run, never) breaks that as well, and unlike a mere overtaking it cannot be the known finding F2
+      o1 == RFlagIf(o0, ~inAcc, "C17.Sequence")
       f1 == inAcc /\ i > 1 /\ o.acc[1].parked
       o2 == RFlagIf(o1, inAcc /\ i > 1, IF f1 THEN "C17.F2.InOrder" ELSE "C17.InOrder")
   IN IF inAcc THEN [o2 EXCEPT !.acc = RemoveAt(@, i)] ELSE o2
@@ -153,7 +158,7 @@ RStep(o, e) ==
     [] e.k = "SockClose" -> [oc EXCEPT !.closed = TRUE]
     [] e.k = "SockFail" -> IF e.s = "inbound" THEN [oc EXCEPT !.closed = TRUE] ELSE oc
     [] e.k = "RecvNone" -> RFlagIf(oc, oc.closed /\ e.a = 1, "C14.CloseClosesInbound")
-    [] e.k = "Drained" -> RFlagIf(oc, ~oc.closed /\ Len(oc.acc) > 0, "C14.DeliveredOnce")
+    [] e.k = "Drained" -> RFlagIf(RFlagIf(oc, ~oc.closed /\ Len(oc.acc) > 0, "C14.DeliveredOnce"), ~oc.closed /\ Len(oc.acc) > 0, "C17.Sequence")
     [] e.k = "End" ->
           LET o1 == RFlagIf(oc, Len(oc.called) > 0, "C13.Resumes")
               o2 == RFlagIf(o1, Len(oc.busyQ) > 0 /\ ~oc.closed /\ e.t - oc.busyQ[1].t > 5 * MaxWait + 20 * oc.pause, "C13.BusyTaken")
